@@ -17,6 +17,24 @@ PIECES = {
 }
 
 
+def extraneous_alternative(names):
+    """does an if/unless block of this piece sequence contain an else followed, at the same depth,
+    by another else or elsif?"""
+    stack = []
+    for n in names:
+        if n in ("if", "unless", "for", "case", "capture"):
+            stack.append([n, False])
+        elif n in ("endif", "endunless", "endfor", "endcase", "endcapture"):
+            if stack:
+                stack.pop()
+        elif n in ("else", "elsif") and stack and stack[-1][0] in ("if", "unless"):
+            if stack[-1][1]:
+                return True
+            if n == "else":
+                stack[-1][1] = True
+    return False
+
+
 def check(env, names):
     src = "".join(PIECES[n] for n in names)
     try:
@@ -32,6 +50,10 @@ def check(env, names):
         parses = False
     if parses and (res.unclosed_tags or res.unexpected_tags or res.unknown_tags):
         rep = sorted(set(res.unclosed_tags) | set(res.unexpected_tags) | set(res.unknown_tags))
+        if extraneous_alternative(names):
+            # the if/unless tags IGNORE (do not parse) whatever follows a second else / an elsif after
+            # else, up to their end tag: one distinct cause, kept apart from every other false alarm
+            return src, f"valid template reported: unclosed={dict(res.unclosed_tags)} unexpected={dict(res.unexpected_tags)} unknown={dict(res.unknown_tags)}", "false-alarm:text-skipped-after-an-extraneous-else"
         return src, f"valid template reported: unclosed={dict(res.unclosed_tags)} unexpected={dict(res.unexpected_tags)} unknown={dict(res.unknown_tags)}", "false-alarm:" + ",".join(rep)
     if "nosuch" in names and "nosuch" not in res.unknown_tags:
         return src, "unknown tag 'nosuch' not reported", "missed-unknown"
@@ -73,6 +95,27 @@ def run(tier, seed):
                 src, err, kind = check(env, seq)
                 if err:
                     viol.append({"id": kind.split(":")[0], "witness": kind + ":same-name-nesting", "source": src, "got": err, "names": list(seq)})
+    # verbatim blocks (doc, raw, comment) with every whitespace-control variant of their delimiters and
+    # tag-like text inside: what they hide is not analysed
+    for opn, cls in (("doc", "enddoc"), ("raw", "endraw"), ("comment", "endcomment")):
+        for lh, rh, lh2, rh2 in itertools.product(("", "-"), repeat=4):
+            for body in (" {% if user %} ", "{% endif %}{% nosuch %}", "{% else %}", " plain "):
+                if opn == "comment" and "nosuch" in body:
+                    continue
+                src = "a {%" + lh + " " + opn + " " + rh + "%}" + body + "{%" + lh2 + " " + cls + " " + rh2 + "%} b"
+                cases += 1
+                try:
+                    res = env.analyze_tags_from_string(src)
+                    got = sorted(set(res.unclosed_tags) | set(res.unexpected_tags) | set(res.unknown_tags))
+                except Exception as e:  # noqa: BLE001
+                    got = [f"raised {type(e).__name__}"]
+                try:
+                    env.from_string(src)
+                    parses = True
+                except LiquidError:
+                    parses = False
+                if parses and got:
+                    viol.append({"id": "false-alarm", "witness": f"false-alarm:verbatim-{opn}", "source": src, "got": f"reported {got}", "names": [opn]})
     # history: an analysis in another environment (other tags, other inner-tag map) beforehand must
     # not change what this environment reports
     before = [(dict(r.unknown_tags), dict(r.unexpected_tags), dict(r.unclosed_tags)) for r in (env.analyze_tags_from_string(x) for x in ("{% plural %}", "{% translate %}{% plural %}{% endtranslate %}", "{% if a %}{% plural %}{% endif %}"))]
